@@ -265,6 +265,15 @@ fn run_doc(rep: &mut Report, r: &mut Rng, o: &Opts, doc: &str) {
     // final newline: on the text without its trailing line ends
     let xs = doc.trim_end_matches(|c| c == '\n' || c == '\r');
     run_rel(rep, "final-newline", o, xs, true);
+    // the rewrites that move no byte to another line or column are also compared with source
+    // positions in the output (BOM and NUL -> U+FFFD change byte columns and are not)
+    if r.chance(1, 3) {
+        let osp = o.clone().with("sourcepos", true);
+        rep.count("s-with-sourcepos");
+        run_rel(rep, "crlf", &osp, &x0, true);
+        run_rel(rep, "cr", &osp, &x0, true);
+        run_rel(rep, "final-newline", &osp, xs, true);
+    }
     // NUL: make sure there is one
     let xn = if doc.contains('\0') {
         doc.to_string()
